@@ -211,6 +211,15 @@ def featureful(seed, k, rng):
                 if d["d"] == "import" and d["file"] == lib:
                     d["file"] = newf
             tags.add("file-name-differs-from-proto-name")
+    if r() < 0.15:
+        # the MAIN schema's file name differs from its proto name (no import involved: every output of the file
+        # carries the FILE's name, and the .c includes the header under that name)
+        newm = p["main"] + "_v2"
+        p["files"] = {(newm if f == p["main"] else f): ds for f, ds in p["files"].items()}
+        p["order"] = [newm if f == p["main"] else f for f in p["order"]]
+        p["main"] = newm
+        main = p["files"][newm]
+        tags.add("main-file-name-differs-from-proto-name")
     if libs and "file-name-differs-from-proto-name" not in tags and r() < 0.2:
         # the imported file says under which module / package name importers find it
         lf = p["files"][libs[0]]
@@ -225,6 +234,9 @@ def featureful(seed, k, rng):
         old_main, old_libs = p["main"], [f for f in p["order"] if f != p["main"]]
         p = gen.wrap_diamond(p, rng)
         tags.add("diamond-import")
+        if "main-file-name-differs-from-proto-name" in tags:
+            # the renamed file is now an IMPORTED one: importers name it by its proto name (D11)
+            tags.add("file-name-differs-from-proto-name")
         if len(p["files"]) > 2:
             # app imports the library file without using any of its types (the type tree is not kept here)
             tags.add("import-used-only-for-constants-or-unused")
@@ -235,7 +247,8 @@ def featureful(seed, k, rng):
                 appm = [d for d in p["files"][p["main"]] if d["d"] == "message"][0]
                 appm["body"].append({"d": "field", "name": "z", "num": 7,
                                      # the imported file is a member of main under its `as` name or its PROTO name
-                                     "t": gen.tref([old_main, cfg["lib_as"] or
+                                     "t": gen.tref([[y for y in p["files"][old_main] if y["d"] == "proto"][-1]["name"],
+                                                    cfg["lib_as"] or
                                                     [y for y in p["files"][old_libs[0]] if y["d"] == "proto"][-1]["name"],
                                                     x["name"]])})
                 tags.add("transitive-dotted-reference")
